@@ -124,6 +124,16 @@ class ExtV(V):
 
 
 @dataclass(frozen=True)
+class PatV(V):
+    """A compiled regular expression whose pattern is a constant."""
+    pattern: str
+    flags: int = 0
+
+    def __repr__(self):
+        return f"Pattern({self.pattern!r})"
+
+
+@dataclass(frozen=True)
 class BoundBuiltin(V):
     """Method of a builtin container / string bound to its receiver."""
     recv: object
